@@ -69,6 +69,14 @@ def cases(tier: str, seed: int) -> list[dict]:
                             'cell': {'mode': mode, 'direct': 'refused', 'indirect': 'pierce-fast', 'cancel': None, 'typ': typ,
                                      'same_instant': True, 'i_yields': j, 'd_yields': 0, 'ports': 'clear', 'prefer_obf': False,
                                      'dup_pierce': 0.0, 'my_listen': 'both', 'pierce_init_delay': 0.0}})
+    # a contradictory peer: cannot-connect relayed by the server and a pierce message within the same virtual instant
+    for typ in ('P', 'F'):
+        for mode in ('race', 'fallback'):
+            for j in range(0, 6):
+                out.append({'kind': 'request', 'seed': seed, 'n': len(out),
+                            'cell': {'mode': mode, 'direct': 'refused', 'indirect': 'cannot', 'cancel': None, 'typ': typ,
+                                     'same_instant': True, 'i_yields': 0, 'd_yields': 0, 'ports': 'clear', 'prefer_obf': False,
+                                     'also_pierce': j, 'dup_pierce': None, 'my_listen': 'both', 'pierce_init_delay': 0.0}})
     n_rand = 4000 if tier == 'quick' else 150000
     for _ in range(n_rand):
         out.append({'kind': 'request', 'seed': seed, 'n': len(out), 'cell': None})
